@@ -1,7 +1,8 @@
 ---------------------------------- MODULE NonceCacheTrace ----------------------------------
 (* Batch judgement of traces recorded from the real NonceCache (drivers/c23.py).
 
-   A trace is a sequence of events, in the real (total) order in which they happened:
+   A recorded trace is [cap, ttl, ev]: the cache parameters and the sequence ev of events, in the real (total)
+   order in which they happened:
       [e |-> "Read", t, n, now, clk]    thread t, presenting nonce n, read the injected clock (value now)
       [e |-> "Done", t, n, res, size, clk]  check_and_add returned res; size = len(cache) right afterwards
       [e |-> "Tick", clk]               the harness advanced the clock to clk
@@ -10,7 +11,7 @@
 
    Two independent judgements, both made by TLC:
 
-   (1) CONFORMANCE -- the trace is a behaviour of NonceCache at Grain = "lock" (Read = ReadClock, Done = Locked
+   (1) CONFORMANCE -- the trace is a behaviour of NonceCache in mode "lock" (Read = ReadClock, Done = Locked
        with the same result and size, Tick = Tick), with the clause invariants of NonceCache switched on.
        A trace the model cannot follow is *drift* (model or harness out of date), never a violation.
        Idiom: tid chosen in Init, furthest matched event kept in TLC register tid, POSTCONDITION prints
@@ -19,21 +20,22 @@
    (2) PROPERTY -- Judge(tr): the C23 clauses evaluated on the recorded events alone, in a form that is sound
        for *any* linearizable implementation (it does not assume that the order of Done events is the
        linearization order): a presentation is the interval [Read, Done];  p precedes q iff p.done < q.read.
-         J_NoReplayInWindow     p, q same nonce, both accepted, p precedes q, q returned while clk < p.now + Ttl
-                                => at least Cap distinct other nonces have a presentation overlapping (p.read, q.done)
+         J_NoReplayInWindow     p, q same nonce, both accepted, p precedes q, q returned while clk < p.now + ttl
+                                => at least cap distinct other nonces have a presentation overlapping (p.read, q.done)
          J_AtMostOneConcurrent  p, q same nonce, both accepted, overlapping, the later one returned while
-                                clk < min(p.now, q.now) + Ttl
-                                => at least Cap distinct other nonces overlap (first read, last done)
-         J_SizeBound            every observed size <= Cap                                                  *)
-EXTENDS NonceCache, Json, IOUtils, TLCExt
+                                clk < min(p.now, q.now) + ttl
+                                => at least cap distinct other nonces overlap (first read, last done)
+         J_SizeBound            every observed size <= cap                                                  *)
+EXTENDS NonceCache, IOUtils, TLCExt
 
 Traces == JsonDeserialize(IOEnv.TRACE_FILE)
 
 VARIABLES tid, l
 tvars == <<vars, tid, l>>
 
-TraceInit == Init /\ tid \in 1..Len(Traces) /\ l = 1
-Tr == Traces[tid]
+TraceInit == /\ tid \in 1..Len(Traces) /\ l = 1
+             /\ Init /\ cap = Traces[tid].cap /\ ttl = Traces[tid].ttl /\ mode = "lock"
+Tr == Traces[tid].ev
 Ev == Tr[l]
 IsEvent(e) == l <= Len(Tr) /\ Ev.e = e /\ l' = l + 1 /\ UNCHANGED tid
 Outcome(b) == IF b THEN "accept" ELSE "reject"
@@ -51,7 +53,7 @@ Progress == TLCSet(tid, IF TLCGet(tid) < l THEN l ELSE TLCGet(tid))
 Constr == Progress
 ASSUME \A i \in 1..Len(Traces) : TLCSet(i, 0)
 Accepted == \A i \in 1..Len(Traces) :
-   IF TLCGet(i) = Len(Traces[i]) + 1 THEN PrintT(<<"ACCEPT", i>>)
+   IF TLCGet(i) = Len(Traces[i].ev) + 1 THEN PrintT(<<"ACCEPT", i>>)
    ELSE PrintT(<<"REJECT", i, "matched", TLCGet(i) - 1>>)
 
 \* ------------------------------------------------------------------ (2) the clauses on the recorded events
@@ -66,28 +68,28 @@ AcceptedOp(tr, i) == DoneOf(tr, i) # 0 /\ tr[DoneOf(tr, i)].res
 \* distinct nonces other than x with a presentation overlapping the open interval (lo, hi)
 OthersIn(tr, x, lo, hi) == {tr[i].n : i \in {k \in Reads(tr) : tr[k].n # x /\ k < hi /\ EndOf(tr, k) > lo}}
 
-J_NoReplayInWindow(tr) ==
+J_NoReplayInWindow(tr, c, w) ==
   \A i, j \in Reads(tr) :
      (/\ tr[i].n = tr[j].n /\ AcceptedOp(tr, i) /\ AcceptedOp(tr, j)
       /\ DoneOf(tr, i) < j                                             \* p returned before q was invoked
-      /\ tr[DoneOf(tr, j)].clk < tr[i].now + Ttl)                      \* q returned inside p's window
-     => Cardinality(OthersIn(tr, tr[i].n, i, DoneOf(tr, j))) >= Cap
+      /\ tr[DoneOf(tr, j)].clk < tr[i].now + w)                      \* q returned inside p's window
+     => Cardinality(OthersIn(tr, tr[i].n, i, DoneOf(tr, j))) >= c
 
-J_AtMostOneConcurrent(tr) ==
+J_AtMostOneConcurrent(tr, c, w) ==
   \A i, j \in Reads(tr) :
      (/\ i < j /\ tr[i].n = tr[j].n /\ AcceptedOp(tr, i) /\ AcceptedOp(tr, j)
       /\ j < DoneOf(tr, i)                                             \* q invoked before p returned: concurrent
       /\ LET lastDone == SetMax({DoneOf(tr, i), DoneOf(tr, j)})
              firstNow == SetMin({tr[i].now, tr[j].now})
-         IN tr[lastDone].clk < firstNow + Ttl)
-     => Cardinality(OthersIn(tr, tr[i].n, i, SetMax({DoneOf(tr, i), DoneOf(tr, j)}))) >= Cap
+         IN tr[lastDone].clk < firstNow + w)
+     => Cardinality(OthersIn(tr, tr[i].n, i, SetMax({DoneOf(tr, i), DoneOf(tr, j)}))) >= c
 
-J_SizeBound(tr) == \A k \in 1..Len(tr) : tr[k].e \in {"Done", "Size"} => tr[k].size <= Cap
+J_SizeBound(tr, c) == \A k \in 1..Len(tr) : tr[k].e \in {"Done", "Size"} => tr[k].size <= c
 
-Judge(tr) == (IF J_SizeBound(tr) THEN {} ELSE {"SizeBound"})
-        \cup (IF J_NoReplayInWindow(tr) THEN {} ELSE {"NoReplayInWindow"})
-        \cup (IF J_AtMostOneConcurrent(tr) THEN {} ELSE {"AtMostOneConcurrent"})
+Judge(r) == (IF J_SizeBound(r.ev, r.cap) THEN {} ELSE {"SizeBound"})
+       \cup (IF J_NoReplayInWindow(r.ev, r.cap, r.ttl) THEN {} ELSE {"NoReplayInWindow"})
+       \cup (IF J_AtMostOneConcurrent(r.ev, r.cap, r.ttl) THEN {} ELSE {"AtMostOneConcurrent"})
 
 \* evaluated once per trace (in its initial state); always TRUE, prints the failed clauses
-JudgeInv == l = 1 => LET b == Judge(Tr) IN b = {} \/ PrintT("@@J@@" \o ToJson([tid |-> tid, bad |-> b]))
+JudgeInv == l = 1 => LET b == Judge(Traces[tid]) IN b = {} \/ PrintT("@@J@@" \o ToJson([tid |-> tid, bad |-> b]))
 =========================================================================================
